@@ -110,7 +110,7 @@ func (tr *Tracker) observe(ev nats.BusEvent) {
 		tr.mu.Lock()
 		defer tr.mu.Unlock()
 		tr.nWrites++
-		rec := &WriteRec{N: tr.nWrites, Step: tr.s.Step, Subject: ev.Msg.Subject, NodeID: node, Parent: parent,
+		rec := &WriteRec{N: tr.nWrites, Step: tr.s.StepSeq(), Subject: ev.Msg.Subject, NodeID: node, Parent: parent,
 			Edge: edge, Reply: ev.Msg.Reply}
 		if ev.Msg.From != nil {
 			rec.From = ev.Msg.From.Name
